@@ -27,6 +27,7 @@ cdef class AsyncListener:
     cdef QueryHandler _query_handler
     cdef public cython.bytes data
     cdef public bint undone
+    cdef public bint heard
     cdef public double last_time
     cdef public DNSIncoming last_message
     cdef public object transport
